@@ -14,6 +14,10 @@ done
 python3 -c "
 import sys; sys.path.insert(0,'tools'); import vlib; vlib.gen_sources()"
 git add lean/Driver.lean
+# generated model data is always regenerated from /repo (a builder may have committed a copy
+# generated from its own checkout)
+python3 tools/extract.py /repo lean/Tw/Gen >/dev/null 2>&1
+git add lean/Tw/Gen
 left=$(git diff --name-only --diff-filter=U)
 if [ -n "$left" ]; then echo "UNRESOLVED in dom-$n: $left"; exit 1; fi
 git commit -qm "Merge branch 'dom-$n'" 2>/dev/null && echo "merged dom-$n" || echo "dom-$n: nothing to merge"
